@@ -210,5 +210,7 @@ def run(ck, ctx):
         lg = simx.local_guards(b, sbi, pops[0][0]) if pops else []
         sw_ok = sw_ok and len(lg) == 1 and "PSR::privileged" in repr(lg[0][1]) and lg[0][2] == "=[0]"
     ck.ob("C10.5", "swap-back", sw_ok, "after restoring the PSR, saved_sp <-> R6 are swapped iff the restored mode is user", "src/sim.rs")
+    ck.include("C33", ctx, "C10.7", {"C33.2", "C33.3"}, "the keyboard raises its interrupt from ready && interrupt-enable; the register semantics the handlers rely on")
+    ck.include("C09", ctx, "C10.8", {"C09.3", "C09.4"}, "the entry sequence stores through the supervisor context; RTI is privileged")
     ck.assume("handler transparency (equal final state for every interrupt schedule) depends on the handler program and is not decided")
     ck.assume("nesting behaviour follows from the same entry/exit pair; not separately decided")
